@@ -101,6 +101,34 @@ func H_C15() {
 		}
 	}
 	desc := reverseEntries(refSorted(rangeEntries, cmp))
+	causalOrder := h.cfg.sort != sortFWW
+	if !causalOrder && !unknown {
+		// an ordering that runs against causality (first write wins): "newest first" cannot mean "descending in
+		// the configured ordering" (an entry never precedes its successors there). The reference is the iteration
+		// without lower bound and amount from the same upper bound: it must cover the range with every entry before
+		// its predecessors; lower bound and amount then cut that sequence.
+		fopts := &ipfslog.IteratorOptions{LT: opts.LT, LTE: opts.LTE}
+		fch := make(chan iface.IPFSLogEntry, size+4)
+		ferr := L.Iterator(fopts, fch)
+		vx.Assert("C15", ferr == nil, "iteration with valid bounds succeeds")
+		if ferr != nil {
+			return
+		}
+		full, fclosed := drain(fch, size+4)
+		vx.Assert("C15", fclosed, "on success the output channel is closed")
+		vx.Assert("C15", len(hashSet(full)) == len(full) && sameSet(hashSet(full), rng), "without lower bound and amount exactly the causal past of the upper bound is emitted")
+		for i := range full {
+			if !antichain {
+				break // causally related upper bounds: under such an ordering the older bound comes first; nothing is claimed
+			}
+			past := refPast([]string{hstr(full[i])}, es)
+			for j := 0; j < i; j++ {
+				vx.Assert("C15", !past[hstr(full[j])] || hstr(full[j]) == hstr(full[i]), "no entry is emitted after one of its successors (newest first)")
+			}
+		}
+		desc = full
+		vx.Cover("anti-causal-ordering")
+	}
 
 	// ---- lower bound (inside the selected range) ----
 	lower := vx.Choice("lower", 3)
@@ -164,7 +192,7 @@ func H_C15() {
 		}
 	}
 	vx.Assert("C15", len(hashSet(got)) == len(got), "no entry is emitted twice")
-	for i := 0; i+1 < len(got); i++ {
+	for i := 0; causalOrder && i+1 < len(got); i++ {
 		r, _ := cmp(got[i], got[i+1])
 		vx.Assert("C15", r > 0, "entries are emitted newest first")
 	}
